@@ -68,6 +68,9 @@ def translate_pattern(pattern: str, flags: int = 0, xsd_version: str = '1.0',
                 if pattern[pos + 1].isdigit():
                     msg = "illegal back-reference in character class at position {}: {!r}"
                     raise RegexError(msg.format(pos, pattern))
+                elif pattern[pos + 1] not in 'nrt\\|.-^?*+{}()[]$sSdDiIcCwWpP':
+                    msg = "invalid escape sequence {!r} at position {}: {!r}"
+                    raise RegexError(msg.format(pattern[pos:pos + 2], pos, pattern))
                 pos += 2
             elif pattern[pos] == ']' or pattern[pos:pos + 2] == '-[':
                 if pos == char_class_pos:
